@@ -108,9 +108,27 @@ def rec_twins(eng, names):
     return full
 
 
+def _has_quantifier(e):
+    seen = set()
+    stack = [e]
+    while stack:
+        t = stack.pop()
+        if t.get_id() in seen:
+            continue
+        seen.add(t.get_id())
+        if z3.is_quantifier(t):
+            return True
+        if z3.is_app(t):
+            stack.extend(t.children())
+    return False
+
+
 def refute(eng, o, extra_nonspec, timeout_ms=10000):
     """Try to find a model of facts & not goal with recursive definitions unfolded by z3."""
     names = spec_symbols(eng, list(o.facts) + [o.goal])
+    for n in names:
+        if n in eng.spec_axioms and _has_quantifier(eng.spec_axioms[n][1]):
+            return "skipped (a recursive spec with an inner quantifier cannot be a z3 recursive function)", None
     # every spec reachable must have a twin before any definition is added
     table = dict(rec_twins(eng, names))
     from . import builtins as B
